@@ -11,6 +11,10 @@ theorem bind_eq_ok {α β} {x : Chk α} {f : α → Chk β} {b : β} :
   | error e => simp [bind, Except.bind]
   | ok a => simp [bind, Except.bind]
 
+theorem map_bind_chk {α β γ} (x : Chk α) (f : α → Chk β) (g : β → γ) :
+    Except.map g (x >>= f) = x >>= (fun a => Except.map g (f a)) := by cases x <;> rfl
+@[simp] theorem map_ok_chk {β γ} (b : β) (g : β → γ) : Except.map g (Except.ok b : Chk β) = .ok (g b) := rfl
+
 theorem wrap32_eq_bmod (x : Int) : wrap32 x = Int.bmod x 4294967296 := by
   simp only [wrap32, Int32.toInt_ofInt]
 theorem wrap64_eq_bmod (x : Int) : wrap64 x = Int.bmod x 18446744073709551616 := by
